@@ -125,6 +125,7 @@ void viol_apply(int v, const JobSpec &s, IMB_JOB *job, std::vector<int> &errs);
 // reference model hook (ref/): returns false if no admitted reference for this spec
 struct RefOut {
         std::vector<uint8_t> dst, tag, src_post, niv;
-        uint8_t dst_mask_first = 0xFF, dst_mask_last = 0xFF; // bit-length modes: which bits of first/last byte are defined
+        uint8_t dst_mask_last = 0xFF;      // bit-length modes: which bits of the last dst byte are defined
+        std::vector<uint8_t> dst_mask;     // optional per-byte mask for dst (empty: all bits compared)
 };
 bool ref_compute(const JobSpec &s, const MatJob &mj, RefOut &out);
